@@ -181,7 +181,7 @@ def fx():
     return _FX
 
 
-def core(kind, leaves=None):
+def core(kind, leaves=None, bare=False):
     """The expression used by a use event: old-type expression with one node of the requested type."""
     x = fx()
     f, g, w = leaves(x) if leaves else (x.f, x.g, x.w)
@@ -195,6 +195,8 @@ def core(kind, leaves=None):
         n = NEW["3"]()
     else:
         raise RuntimeError(kind)
+    if bare:  # for algorithms whose generic handler cuts the traversal off at the root
+        return n
     return n * g + abs(f) + w[x.i] * w[x.i]
 
 
@@ -235,7 +237,7 @@ def _ctor_table():
         "GeometryLoweringApplier": dict(args=lambda: ((),)),
         "RestrictionPropagator": dict(args=lambda: (), inp=lambda e: e("+")),
         "ArityChecker": dict(args=lambda: ((x.v,),), inp=lambda e: e * x.v),
-        "RestrictionChecker": dict(args=lambda: (False,)),
+        "RestrictionChecker": dict(args=lambda: (False,), bare=True),
         "SumDegreeEstimator": dict(args=lambda: (1, {})),
         "IndexReplacer": dict(args=lambda: ({},)),
         "Replacer": dict(args=lambda: ({x.f: x.g},)),
@@ -268,6 +270,7 @@ class Entry:
         self.origin = origin
         self.ctor = None
         self.leaves = None
+        self.bare = False
 
 
 def _apply(kind, inst, e):
@@ -289,6 +292,7 @@ def _class_entry(kind, cls, spec):
     ent = Entry(cls.__name__, kind, run, cls.__module__ + "." + cls.__name__)
     ent.ctor = lambda: cls(*args())
     ent.leaves = spec.get("leaves")
+    ent.bare = spec.get("bare", False)
     return ent
 
 
@@ -550,6 +554,7 @@ def entries():
         out["syn." + nm] = Entry("syn." + nm, kind, run, "driver-defined at its first use in the process image")
     for nm, f in _fn_table().items():
         out["fn." + nm] = Entry("fn." + nm, "FN", f, "function entry point")
+    out["fn.check_restrictions"].bare = True
     # the root image must be pristine: no algorithm class may have been instantiated yet
     if MultiFunction._handlers_cache or Transformer._handlers_cache:
         raise RuntimeError("harness: handler caches are not empty in the root process image")
@@ -636,7 +641,7 @@ def do_event(names, ev):
     ent = entries()[names[who]]
     # the input expression is built outside the observed region: constructing the new-type node is
     # not the algorithm under test (a failure there is a harness problem)
-    e = core(what, ent.leaves)
+    e = core(what, ent.leaves, ent.bare)
     return observe(lambda: ent.run(e))
 
 
